@@ -406,6 +406,25 @@ def step13 (lmtpSess : Bool) (decs : List DataDec) (drecs : List DRec) (m : M13)
       .ok { m with lastCode := lc, replies := if m.pending.isSome then m.replies ++ rs else [] }
   | _ => .ok m
 
+/-- `TAG=lastfail`: the generator vouches that the conversation is one LMTP transaction whose message ends with a `BDAT … LAST`
+    that cannot be delivered (the backend has given up, or gives up inside that chunk), followed by marker commands.  The
+    response to BDAT LAST — what the server writes between the start of the delivery and the execution of the first marker —
+    is exactly one reply per accepted recipient, in RCPT order, each naming its recipient (RFC 2033 4.2), plus — before them —
+    the `250 Continue` replies of the earlier chunks, if any. -/
+def checkLastFail (evs : List Ev) : List String :=
+  let isMarker (e : Ev) : Bool := match e with | .mail _ a _ _ => "mk".b.isPrefixOf a | _ => false
+  if !evs.any isMarker then [] else     -- the connection was given up (a panic): nothing to count
+  let rcpts := evs.filterMap fun e => match e with | .rcpt _ a _ r => if r == .ok then some a else none | _ => none
+  let after := (evs.dropWhile (fun e => match e with | .dataBegin .. => false | _ => true)).drop 1
+  let seg := after.takeWhile (fun e => !isMarker e)
+  let replies := ((seg.filterMap fun e => match e with | .w bs => parse bs | _ => none).flatten).filter
+    (fun r => !(r.code == 250 && r.lines == ["2.0.0 Continue".b]))
+  if replies.length != rcpts.length then ["C13 the response to a BDAT LAST that could not be delivered is not one reply per accepted recipient"]
+  else if (rcpts.zip replies).all (fun p => match p.2.lines.head? with
+      | some l => containsSub l ("<".b ++ p.1 ++ "> ".b)
+      | none => false) then []
+  else ["C13 a reply to a failed BDAT LAST does not name its recipient, in RCPT order"]
+
 def check13 (lmtp lmtpSess : Bool) (decs : List DataDec) (drecs : List DRec) (evs : List Ev) : List String :=
   if !lmtp then [] else runMon (step13 lmtpSess decs drecs) (fun _ => []) {} evs
 
